@@ -46,4 +46,53 @@ def run (F : Facts) : H → List Ev → H × List Out
 /-- pending changes are always visible to the next `Commit` -/
 def HInv (h : H) : Prop := h.pending = true → (h.clean = false ∨ h.unstored = true ∨ h.poisoned = true)
 
+/-! ## The table above the handle: what a connection carries over a failed COMMIT (F76)
+
+SQLite answers a failed `xSync` with `xRollback`, and `VirtualTable.Rollback` goes back to the
+clone taken at `Begin`.  The clone is a fresh handle (not poisoned), but it shares node objects with
+the tree whose flush failed, and those are marked stored although they never reached the bucket:
+ghost bit `tainted`.  A commit from a tainted tree can be acknowledged with a link to a missing
+node (`ackDangling`).  `commitFailed` is the field the source keeps; `Begin` reopens the tree from
+the bucket when it is set (`failedCommitReopens`), which needs the bucket (`reopenOK`). -/
+
+structure T where
+  tainted : Bool := false       -- ghost: memory holds nodes marked stored that the bucket lacks
+  commitFailed : Bool := false  -- `VirtualTable.commitFailed`
+  inTx : Bool := false          -- `txStart != nil`
+  poisoned : Bool := false      -- the live handle's `flushErr`
+deriving DecidableEq, Repr
+
+inductive TEv where
+  | begin (reopenOK : Bool)
+  | commit (flushOK putOK : Bool)
+  | rollback
+deriving DecidableEq, Repr
+
+inductive TOut where
+  | ok | err | ack | ackDangling
+deriving DecidableEq, Repr
+
+def tstep (F : Facts) (t : T) : TEv → T × TOut
+  | .begin reopenOK =>
+    if t.inTx then (t, .err)
+    else if F.failedCommitReopens && t.commitFailed then
+      if reopenOK then ({ tainted := false, commitFailed := false, inTx := true, poisoned := false }, .ok)
+      else (t, .err)
+    else ({ t with inTx := true }, .ok)
+  | .commit flushOK putOK =>
+    if !t.inTx then (t, .err)
+    else if t.poisoned then (t, .err)                          -- kv: "reopen to try again"
+    else if !flushOK then ({ t with tainted := true, poisoned := true, commitFailed := true }, .err)
+    else if !putOK then ({ t with commitFailed := true }, .err)
+    else ({ t with inTx := false }, if t.tainted then .ackDangling else .ack)
+  | .rollback => ({ t with inTx := false, poisoned := false }, .ok)   -- back to the clone taken at Begin
+
+def trun (F : Facts) : T → List TEv → T × List TOut
+  | t, [] => (t, [])
+  | t, e :: es => let (t', o) := tstep F t e; let (t'', os) := trun F t' es; (t'', o :: os)
+
+/-- a tainted tree is remembered, and is never the live tree of an open, unpoisoned transaction -/
+def TInv (t : T) : Prop :=
+  (t.tainted = true → t.commitFailed = true) ∧ (t.inTx = true → t.poisoned = false → t.tainted = false)
+
 end S3db.CommitRetry
